@@ -54,7 +54,9 @@ def specDispatch (sys : Sys) (n : String) (ev : Obj) (now : Int) : Json :=
   | (_, .ok locs) =>
     let ownFacts := match sys.get? n with | some l => l.st.facts | none => []
     let r : Except LErr (List (String × List Bs)) := do
-      let per ← locs.mapM (fun (_, facts) => specDispatchLocal facts ev now)
+      -- the SET of ancestors: a location reached along two chains of parents is one location
+      let each := locs.foldl (fun acc x => if acc.any (fun y => y.1 == x.1) then acc else acc ++ [x]) []
+      let per ← each.mapM (fun (_, facts) => specDispatchLocal facts ev now)
       pure (per.flatten.filter (fun (id, _) => !ruleDisabled ownFacts id now))
     match r with
     | .ok l => okJ (found2J l)
